@@ -273,8 +273,12 @@ def caseLine (t : Tables) (st : CaseState) (ws : List String) : CaseState :=
       let res := parseArgs E help st.P argv
       let mask := argv.any (·.contains 0x25)
       let st := { st with P := res.P }
+      let showEv (ev : Event) : String :=
+        match ev with
+        | .out se _ => if mask then (if se then "STDERR MASKED" else "STDOUT MASKED") else showEvent res.P ev
+        | _ => showEvent res.P ev
       let lines := ["RET " ++ showErr mask res.err ++ " " ++ hexList res.ret] ++ dumpState res.P ++
-        res.log.map (showEvent res.P)
+        res.log.map showEv
       lines.foldl CaseState.emit st
     | _, _ => fail ("bad parse: " ++ " ".intercalate ws)
   | none, ["iniparse", cols, asd, text] =>
